@@ -1,6 +1,7 @@
 #!/usr/bin/env python3
 """dev tool: apply every behaviour-preserving refactor under <dir>/*/patch.diff to its own scratch worktree of /repo's HEAD and run
-ALL 18 quick checks against it.  usage: tools/refactor_matrix.py <dir> [-j N]
+ALL 18 quick checks against it (--own: only the property named in the directory plus C04, C10, C11).
+usage: tools/refactor_matrix.py <dir> [-j N] [--own]
 Expected: exit 0 everywhere; a `no-failing-input-found` line means the tie (not the property) broke."""
 import concurrent.futures as cf
 import glob
@@ -12,10 +13,14 @@ ROOT = os.path.dirname(os.path.dirname(os.path.abspath(__file__)))
 SRC = sys.argv[1]
 J = int(sys.argv[sys.argv.index("-j") + 1]) if "-j" in sys.argv else 3
 IDS = [f"C{i:02d}" for i in range(1, 19)]
+OWN = "--own" in sys.argv
 
 
 def one(patch):
     name = os.path.basename(os.path.dirname(os.path.dirname(patch))) + "_" + os.path.basename(os.path.dirname(patch))
+    import re
+    own = re.search(r"rf_(C\d\d)", patch)
+    ids = IDS if not (OWN and own) else sorted({own.group(1), "C04", "C10", "C11"})
     wt = f"/tmp/wt/rfm_{name}"
     subprocess.run(["git", "-C", "/repo", "worktree", "add", "--detach", wt, "HEAD", "-q"], check=True)
     res = {}
@@ -23,7 +28,7 @@ def one(patch):
         if subprocess.run(["git", "apply", patch], cwd=wt).returncode:
             return name, {"apply": "FAILED"}
         env = dict(os.environ, SKCHANGE_REPO=wt, VERIF_PROCS="4", VERIF_NO_MINIMISE="1")
-        for cid in IDS:
+        for cid in ids:
             r = subprocess.run(["./check", cid, "--tier", "quick"], cwd=ROOT, env=env, capture_output=True, text=True)
             v = [l for l in r.stdout.splitlines() if l.startswith("VIOLATION")]
             if r.returncode != 0:
@@ -33,7 +38,8 @@ def one(patch):
     return name, res
 
 
-patches = sorted(glob.glob(os.path.join(SRC, "*", "out", "r*", "patch.diff")) + glob.glob(os.path.join(SRC, "*", "r*", "patch.diff")))
+patches = sorted(glob.glob(os.path.join(SRC, "*", "out", "r*", "patch.diff")) + glob.glob(os.path.join(SRC, "*", "r*", "patch.diff"))
+                 + glob.glob(os.path.join(SRC, "rf_*", "patch.diff")))
 with cf.ThreadPoolExecutor(J) as ex:
     for name, res in ex.map(one, patches):
         print(name, "ALL GREEN" if not res else res, flush=True)
